@@ -247,6 +247,10 @@ class Echo(object):
     def items(self, v):
         return iter([v, [v]])
 
+    def blob(self, b):
+        SEEN.append(("blob", b.info))
+        return b.deserialized()
+
 
 class Wire:
     def __init__(self):
@@ -318,6 +322,16 @@ def check_wire(w, name, ser, v, lossless, compression):
             return dict(desc, violated="streamed item differs from the plain result: %r vs %r" % (got, expect), position="streamed item")
     except Exception as x:      # noqa
         return dict(desc, violated="batch / stream transport failed: %r" % (x,))
+    # the value travelling inside a SerializedBlob (kept serialized until the server method asks for it): the method gets the same arguments
+    try:
+        del SEEN[:]
+        got = p.blob(client.SerializedBlob("blob-info", [v]))
+        if SEEN != [("blob", "blob-info")]:
+            return dict(desc, violated="blob call: the method saw %r" % (SEEN,), position="blob argument")
+        if not (isinstance(got, (list, tuple)) and len(got) == 1 and same(got[0], expect)):
+            return dict(desc, violated="blob argument: deserialized() gave %r, the serializer's mapping of the argument list is [%r]" % (got, expect), position="blob argument")
+    except Exception as x:      # noqa
+        return dict(desc, violated="blob call failed: %r" % (x,), position="blob argument")
     return None
 
 
